@@ -128,6 +128,28 @@ def gen_cases(tier, rng):
                         cases.append("cv09 ptrc 0 %d 0 %s %s" % (elsz, hexs(w), sched))
                 # the object itself rewritten between fetch and read (allowed: the snapshot is taken at the read)
                 cases.append("cv09 ptrc 0 %d 0 %s 1:%d:%d" % (elsz, hexs(w), tgt, body[tgt] ^ 0xff))
+    # copy_and_verify_string / copy_and_verify_range on a pointer CELL of sandbox memory (a tainted_volatile<T*>): the cell
+    # (4 bytes at 0) designates string / range A (at 8) or B (at 16) of a 24-byte window; the adversary redirects the cell
+    # to the other one, to the last byte of memory, or nulls it, at every interleave point; bytes of A are flipped as well
+    wl = 24
+    for rep in range(2 if q else 10):
+        la = rng.choice([0, 1, 2, 3, 5])
+        lb = rng.choice([0, 1, 2, 4])
+        A_ = [rng.randrange(1, 256) for _ in range(la)] + [0] + [rng.randrange(1, 256) for _ in range(7 - la)]
+        B_ = [rng.randrange(1, 256) for _ in range(lb)] + [0] + [rng.randrange(1, 256) for _ in range(7 - lb)]
+        for tgt in (8, 16):
+            w = le4(TOT - wl + tgt) + [rng.randrange(256) for _ in range(4)] + A_ + B_
+            other = 24 - tgt
+            for variant, extra in (("strsc", "0 0"), ("struc", "0 0")) + tuple(("rangec", "%d %d" % (e, c)) for e, c in ((1, 3), (2, 2), (4, 1), (1, 8), (8, 1), (4, 3))):
+                cases.append("cv09 %s 0 %s %s -" % (variant, extra, hexs(w)))
+                for new in (TOT - wl + other, 0, TOT - 1, TOT - wl + tgt + 1):
+                    nb = le4(new)
+                    for t in range(0, 10):
+                        sched = ",".join("%d:%d:%d" % (t, i, nb[i]) for i in range(4))
+                        cases.append("cv09 %s 0 %s %s %s" % (variant, extra, hexs(w), sched))
+                for t in range(0, 10):
+                    i = tgt + rng.randrange(0, 4)
+                    cases.append("cv09 %s 0 %s %s %d:%d:%d" % (variant, extra, hexs(w), t, i, 0 if w[i] else 0x41))
     return cases
 
 
